@@ -10,7 +10,7 @@ from sqlcase import is_conflict_text
 import os
 import random
 
-from common import Report, Violation, parallel_map, h, run_sentinels
+from common import Report, Violation, parallel_map, h, run_sentinels, panic_site
 from schedlib import run_scenario, stmt_rows, trace_spec, interleaving_signature
 from sqlcase import ms
 
@@ -76,7 +76,7 @@ def judge(sc, rows, effects_all, out):
     if out.get("error"):
         return [("database-open-failed", out["error"])], info
     for p in out.get("panics", []):
-        v.append(("panic:" + p.split("|")[0].replace("/repo/", ""), p[:200]))
+        v.append(("panic:" + panic_site(p), p[:200]))
     model = {n: dict(r) for n, r in rows.items()}
     maybe = {n: {} for n in rows}       # effects of failed statements: must be absent
     for c, effects in enumerate(effects_all):
